@@ -520,14 +520,22 @@ def main(argv):
     if violations:
         os.makedirs(replay_dir, exist_ok=True)
         rp = os.path.join(replay_dir, '%s.json' % prop)
-        witness = find_witness(prop, violations)
+        # candidate inputs for the failed obligations: every witness script of that function is played against the real server
+        # built from this tree; the first one that shows the bad behaviour is the replayed counterexample
+        witness = None
+        replayed = None
+        tried = []
+        for w in find_witnesses(prop, violations)[:4]:
+            rr = run_replay(w)
+            tried.append({'witness': os.path.basename(w['path']), 'reproduced': rr.get('reproduced')})
+            witness, replayed = w, rr
+            if rr.get('reproduced'):
+                break
         rec = {'property': prop, 'failed_obligations': [
             {'unit': u, 'function': e['fn'], 'kind': e['kind'], 'clause': e['clause'], 'site': e['site'],
              'verifier_output': e['rendered']} for u, e in violations],
-            'witness': witness}
-        replayed = None
+            'witness': witness, 'witnesses_tried': tried}
         if witness:
-            replayed = run_replay(witness)
             rec['replay_result'] = replayed
         with open(rp, 'w') as f:
             json.dump(rec, f, indent=1)
@@ -601,6 +609,24 @@ def scan_trusted(path):
 
 def common_trusted():
     return ['extraction rules R1..R20 as counted per function (tools/extract.py)', 'Verus 0.2026.09.13 + Z3 + vstd']
+
+
+def find_witnesses(prop, violations):
+    """witness scripts attached to known patterns (replay/witness/*.json): matched by property+function; all matches, in name order"""
+    wd = os.path.join(VERIF, 'replay', 'witness')
+    out = []
+    if not os.path.isdir(wd):
+        return out
+    for p in sorted(glob.glob(os.path.join(wd, '*.json'))):
+        w = json.load(open(p))
+        for u, e in violations:
+            if prop in w.get('properties', []) and w.get('function') == e['fn'] and (
+                    not w.get('kind') or w['kind'] in e['kind']) and (
+                    not w.get('expr') or re.sub(r'\s+', '', w['expr']) in re.sub(r'\s+', '', e['site'] + '|' + e['clause'])):
+                w['path'] = p
+                out.append(w)
+                break
+    return out
 
 
 def find_witness(prop, violations):
